@@ -213,6 +213,71 @@ def case(spec):
                                   {'this': {k: obs[k] for k in diff}, 'random': {k: base[1][k] for k in diff}}, f2,
                                   [dfsbin, '--file', path, diff[0].split()[0]])
             res.sample = {'kind': kind, 'variant': variant, 'spt': spt, 'total': total, 'files': len(ents), 'variants': [a for a, _ in todo]}
+        elif kind == 'twosided35':
+            # a 35-track two-sided non-interleaved image (a track count other than 40/80): where the second side of
+            # a 40-track two-sided image would begin there is the body of a file of the real second side; whatever
+            # that body holds (also a valid-looking catalogue) the image stays 35 tracks x 2 sides
+            spt = [10, 18][idx % 2]
+            tracks = 35
+            total = tracks * spt
+            ext = 'ssd' if spt == 10 else 'sdd'
+            v0, v1 = rng.choice(['acorn', 'watford']), rng.choice(['acorn', 'watford'])
+            s0 = dm.gen_surface(rng, variant=v0, spt=spt, total=total, tracks=tracks, sid=0, maxlen_sectors=6, nfiles=rng.randint(0, 6))
+            hot = (40 - tracks) * spt
+            first = 4 if v1 == 'watford' else 2
+            ents = []
+            names = iter(dm.unique_names(rng, 6, dm.NAME_ALNUM, '$AB'))
+            for (st, ln) in [(first, 256 * rng.randint(1, 3)), (hot, rng.choice([512, 1024, 700])), (hot + 8, 300)]:
+                d, nm = next(names)
+                ents.append(dm.Entry(d, nm, False, rng.getrandbits(18), rng.getrandbits(18), ln, st, rng.randbytes(ln)))
+            if v1 == 'watford':
+                cat1 = dm.Cat(b'SIDETWO', 0, 3, 0, total, dm.catalogue_order(ents[:1]), dm.catalogue_order(ents[1:]))
+            else:
+                cat1 = dm.Cat(b'SIDETWO', 0, 3, 0, total, dm.catalogue_order(ents))
+            results = []
+            for nvar, vk in enumerate(['random', 'catalogue-like', 'catalogue-like-small', 'zeros', 'aa-run']):
+                e = ents[1]
+                if vk == 'random':
+                    e.body = rng.randbytes(e.length)
+                elif vk == 'zeros':
+                    e.body = bytes(e.length)
+                elif vk == 'aa-run':
+                    e.body = b'\xAA' * e.length
+                else:
+                    fake = catalogue_like(rng, total=(40 * spt if vk == 'catalogue-like' else rng.choice([200, 350, 400])))
+                    e.body = (fake * 3)[:e.length]
+                s1 = dm.Surface(v1, tracks, spt, [dm.Volume(None, 0, total, 0, cat1)], rng.getrandbits(16), 1)
+                raw = s0.image() + s1.image()
+                path = os.path.join(tmp, 't%d.%s' % (nvar, ext))
+                write_file(path, raw)
+                files = {os.path.basename(path): raw}
+                obs, bad = observe(dfsbin, path, ['0', '2'], res, files)
+                results.append((vk, obs, files, path))
+                res.events += 1
+                for dv, surf in (('0', s0), ('2', s1)):
+                    lines = [rm.parse_info_line(l) for l in obs['info :%s.#.*' % dv][1].split(b'\n') if l]
+                    exp = [rm.expected_info(x) for x in surf.volumes[0].cat.all_entries()]
+                    g = geometry_of(obs, int(dv))
+                    if lines != exp or g is None or g[2] != tracks or g[3] != spt:
+                        res.violation('misidentified:twosided35:%s' % vk,
+                                      'a 35-track two-sided image whose side-2 file body at sector %d is "%s": drive %s shows '
+                                      'geometry %r and %d of %d catalogue lines' % (hot, vk, dv, g, len(lines), len(exp)),
+                                      {'config': obs['show-config'][1], 'cat': obs['cat ' + dv][1][:200]}, files,
+                                      [dfsbin, '--show-config', '--file', path, 'info', ':%s.#.*' % dv])
+                        break
+                res.sigs.append('twosided35|%d|%s|%s|%s|%d' % (spt, v0, v1, vk, idx))
+            base = results[0]
+            for vk, obs, files, path in results[1:]:
+                res.events += 1
+                if obs != base[1]:
+                    diff = [k for k in obs if obs[k] != base[1].get(k)]
+                    f2 = dict(files)
+                    f2.update(base[2])
+                    res.violation('identification-depends-on-bodies:twosided35:%s' % vk,
+                                  'same catalogues, side-2 body "%s" vs "random": %s differ' % (vk, ', '.join(diff)),
+                                  {'this': {k: obs[k] for k in diff}, 'random': {k: base[1][k] for k in diff}}, f2,
+                                  [dfsbin, '--file', path, diff[0].split()[0]])
+            res.sample = {'kind': kind, 'spt': spt, 'sides': [v0, v1], 'hot_sector_on_side_2': hot}
         elif kind == 'inter':
             # two-sided interleaved images: each side is identified on its own markers
             from ..dfsutil import make_image
@@ -362,7 +427,7 @@ def case(spec):
 def main(tier, seed, scale=1.0):
     BIN['san'] = build.ensure('san')
     q = tier == 'quick'
-    counts = {'bodies': 90 if q else 4000, 'watford-hi': 40 if q else 1000, 'opus': 100 if q else 3000, 'inter': 60 if q else 1500}
+    counts = {'bodies': 90 if q else 4000, 'watford-hi': 40 if q else 1000, 'opus': 100 if q else 3000, 'inter': 60 if q else 1500, 'twosided35': 24 if q else 600}
     specs = []
     for k, n in counts.items():
         specs += [(seed, k, i, tier) for i in range(max(4, int(n * scale)))]
